@@ -316,8 +316,8 @@ def po_cases(draw):
     cls = draw(st.sampled_from(["PointProcess", "PitchTier", "DurationTier"]))
     hi = draw(st.sampled_from([1.0, 1.8696875, 2.5, 10.0]))
     n = draw(st.integers(0, 6))
-    ks = sorted(draw(st.lists(st.integers(0, 1000), min_size=n, max_size=n, unique=True)))
-    times = [hi * k / 1000 for k in ks]
+    ks = sorted(draw(st.lists(st.integers(0, 1000), min_size=n, max_size=n, unique=draw(st.integers(0, 2)) > 0)))
+    times = [hi * k / 1000 for k in ks]  # non-decreasing; coinciding times (a step in a PitchTier) keep their order
     if cls == "PointProcess":
         pts = [[t] for t in times]
     else:
